@@ -33,36 +33,24 @@ def rule_table(R):
     ctx_variants = [v["name"] for v in f.adts[CTX]["variants"]]
     id_variants = [v["name"] for v in f.adts[PID]["variants"]]
 
-    def root_is(t):
-        if t == ("param", "context"):
-            return "ctx"
-        if is_call(t, "Into::into", "From::from"):
-            return "id"
-        return False
-    leaves = paths.explore(iv, 0, root_is, lambda b, bb: False, max_paths=20000)
+    # the table, cell by cell: is_valid_for evaluated over the finite domain (context, identifier) with a legal value --
+    # one reading for a `matches!` on the pair, a `match` per context, helper predicates and `==` tests
+    from .. import valueset
+    hv0 = roles.method(f, PROP, "has_valid_value")
+    cdis = {v["name"]: v["discr"] for v in f.adts[CTX]["variants"]}
+    idis = {v["name"]: v["discr"] for v in f.adts[PID]["variants"]}
     table = {}
     unknown = False
-    for lf in leaves:
-        if lf["kind"] != "return":
-            continue
-        v = ret_value_on_path(iv, lf["path"])
-        val = v[2] if v is not None and v[0] == "const" else None
-        # paths through the value check's false edge return false for everything: they carry no ctx/id constraints
-        c = lf["cons"].get(("ctx",))
-        i = lf["cons"].get(("id",))
-        if c is None and i is None:
-            if val != 0:
+    for cc in ctx_variants:
+        for ii in id_variants:
+            env = {("param", "context"): {cdis[cc]}, ("call", "Into::into"): {idis[ii]}, ("call", "From::from"): {idis[ii]},
+                   ("call", hv0.name): {1}}
+            vs = valueset.evaluate_fn(f, iv, env, max_paths=400)
+            if vs is None or len(vs) != 1:
                 unknown = True
-            continue
-        cs = [c] if isinstance(c, str) else [x for x in ctx_variants if c is None or x not in c[1]]
-        is_ = [i] if isinstance(i, str) else [x for x in id_variants if i is None or x not in i[1]]
-        for cc in cs:
-            for ii in is_:
-                prev = table.get((cc, ii))
-                if prev is not None and prev != val:
-                    table[(cc, ii)] = "conflict"
-                else:
-                    table[(cc, ii)] = val
+                table[(cc, ii)] = None if vs is None else "conflict"
+            else:
+                table[(cc, ii)] = next(iter(vs))
     R.ob("table/extracted", not unknown and len(table) >= len(ctx_variants) * 27,
          "the validity table of is_valid_for could be extracted completely (%d cells)" % len(table), where=iv.span, nontrivial=False)
     n = 0
@@ -398,12 +386,35 @@ def rule_order(R):
     wn = roles.method(f, "will::Will", "new")
     reach = f.reachable_bodies([wn.name])
     ivf = roles.method(f, PROP, "is_valid_for")
-    okw = False
+    def contexts_at(body_, call_, arg_i, depth=0):
+        """PropertyContext variants that can arrive at argument arg_i of call_ (in body_) on call chains from Will::new:
+        a literal, or a parameter that the callers inside `reach` supply"""
+        a = peel(body_.operand_term(call_.args[arg_i]))
+        out = set()
+        for alt in phi_alts(a):
+            alt = peel(alt)
+            if alt[0] == "agg" and alt[2] == CTX:
+                out.add(alt[3])
+            elif alt[0] == "param" and depth < 3:
+                pi = [k for k in range(1, body_.arg_count + 1) if body_.param_name(k) == alt[1]]
+                found = False
+                for n2 in reach:
+                    b2 = f.bodies[n2]
+                    for c2 in outq.calls_to(f, b2, body_):
+                        if pi and pi[0] - 1 < len(c2.args):
+                            found = True
+                            out |= contexts_at(b2, c2, pi[0] - 1, depth + 1)
+                if not found:
+                    out.add("?")
+            else:
+                out.add("?")
+        return out
+    ctxs = set()
     for n in reach:
         bb_ = f.bodies[n]
         for c in outq.calls_to(f, bb_, ivf):
-            a = bb_.operand_term(c.args[1])
-            okw = okw or (a[0] == "agg" and a[3] == "Will")
+            ctxs |= contexts_at(bb_, c, 1)
+    okw = ctxs == {"Will"}
     R.ob("order/will/context", okw, "Will::new validates the will properties for the Will context", where=wn.span)
 
 
